@@ -687,12 +687,15 @@ class SurfaceContainer(AbstractContainer):
         force_tsl = kwargs.get('force', False)
         update_delta = kwargs.pop('delta', True)
 
-        # Don't re-tessellate if everything is in place
-        if all((self._cache['vertices'], self._cache['faces'])) and not force_tsl:
-            return
-
         # Tessellate the surfaces in the container
         num_procs = kwargs.pop('num_procs', 1)
+
+        # Don't re-tessellate if everything is in place (tessellated with the same arguments)
+        tsl_args = dict((key, val) for key, val in kwargs.items() if key != 'force')
+        if all((self._cache['vertices'], self._cache['faces'])) and not force_tsl and \
+                tsl_args == getattr(self, '_tsl_args', tsl_args):
+            return
+        self._tsl_args = tsl_args
         new_elems = []
         if num_procs > 1:
             with utl.pool_context(processes=num_procs) as pool:
@@ -705,6 +708,8 @@ class SurfaceContainer(AbstractContainer):
                 elem._delta = tmp._delta
                 elem._eval_points = tmp._eval_points
                 elem._tsl_component.__dict__.update(tmp._tsl_component.__dict__)
+                if hasattr(tmp, '_tsl_args'):
+                    elem._tsl_args = tmp._tsl_args
                 for trim, tmp_trim in zip(elem._trims, tmp._trims):
                     trim.__dict__.update(tmp_trim.__dict__)
                 new_elems.append(elem)
